@@ -763,7 +763,7 @@ func (e *slowReadingExp) ExportSpans(_ context.Context, ss []sdktrace.ReadOnlySp
 	for i, s := range ss {
 		first[i] = s.SpanContext().SpanID()
 	}
-	time.Sleep(50 * time.Microsecond)
+	time.Sleep(300 * time.Microsecond)
 	diff := false
 	for i, s := range ss {
 		if s == nil || s.SpanContext().SpanID() != first[i] {
